@@ -42,6 +42,9 @@ claimed = {
  'C14': dict(
    text="Proof, all module texts, for the hand-written lexer layer: under the lexer representation invariant (0<=start<=pos<=len(input), ring indices inside the token buffer) every lexer method (next, backup, peek, ignore, isEof, acceptWS, acceptToken, acceptRun, acceptString, acceptNumber, acceptInteger, acceptToks, emit, pushToken, popToken, keyword, Position), the definition stack (push grows, pop/peek/peekModule in range), tokenString, trimQuotes and isPrefixedIdent are proved free of index/slice/nil panics and to re-establish the invariant with exact frames (assigns clauses); the scanning loops of acceptWS (all four), acceptString, acceptNumber, acceptInteger, Position, peekModule are proved terminating (decreases len(input)-pos). Not decided: the goyacc table interpreter yyParse and the grammar actions, lexBegin's statement dispatch, resolver/compiler recursion over cyclic typedefs/identities, loader/opener faults.",
    ref="7 (C14)", technique="deductive verification: safety and termination obligations (weakest-precondition VCs from go/ssa, checked mathematical integers with no-overflow obligations); contracts in parser/contracts_verif.go; discharged by z3/cvc5"),
+ 'C16': dict(
+   text="Proof (partial: the comparison and the visibility decisions; path resolution, literal conversion and the read of the operand are trusted abstractions): xpathImpl.resolveOperator — for each of =, !=, <, <=, >, >= the result equals the mathematical comparison cmpv of the leaf value with the literal for every ordered scalar type (numeric for all widths, by name for enums, character-wise for strings, by truth value for booleans; the Compare methods themselves are proved under C17); an unset leaf or absent literal makes every comparison false; unknown operators, non-leaf operands and incomparable values are errors, never panics; no write is issued. Where: entries of the list the read started at are visible exactly when the predicate holds, everything else passes. CheckWhen.check: no when-statement or nil selection passes; otherwise the predicate decides. Notification filter: the predicate decides. val.Equal is proved for arbitrary arguments.",
+   ref="7 (C16)", technique=TECH),
  'C17': dict(
    text="Proof, all inputs: every Compare method of package val is verified (exact 64-bit machine semantics, bit-vectors) against the mathematical order cmpv (numeric order for every signed/unsigned width, IEEE order for decimal64, byte order for strings/identity names, id order for enums, false<true); the order laws (range, reflexive, antisymmetric, transitive, strict-transitive, equality-transitive, agreement with integer order) are lemmas over cmpv discharged by SMT. Not decided: reflect-based lookups in nodeutil (reflect is outside the subset).",
    ref="7 (C17)", technique="deductive verification: weakest-precondition VCs from go/ssa, contracts in val/contracts_verif.go, discharged by z3/cvc5"),
